@@ -641,13 +641,14 @@ FUNCS = {"NewC": ([], '(bconst (vother "ptr"))'), "NewF": ([], '(bconst (vother 
          "IdI32": (["i32"], "(becho 0)"), "IdI64": (["i64"], "(becho 0)"), "IdU": (["u"], "(becho 0)"), "IdU8": (["u8"], "(becho 0)"),
          "IdU16": (["u16"], "(becho 0)"), "IdU32": (["u32"], "(becho 0)"), "IdU64": (["u64"], "(becho 0)"), "IdF32": (["f32"], "(becho 0)"),
          "IdF64": (["f64"], "(becho 0)"), "IdS": (["s"], "(becho 0)"), "IdB": (["b"], "(becho 0)"), "Two": (["i64", "f64"], "(becho 0)"),
-         "Mix3": (["u8", "s", "i32"], "(becho 2)"), "NoRet": ([], "bnone"), "Boom": ([], "bpanic"), "BoomErr": ([], "bpanic"), "BoomRT": ([], "bpanic"), "Hold": (["s"], "bnone"), "Gate": (["s"], "bnone"), "After": (["s"], "bnone")}
+         "Mix3": (["u8", "s", "i32"], "(becho 2)"), "NoRet": ([], "bnone"), "Boom": ([], "bpanic"), "BigBoom": ([], "bpanic"), "BoomErr": ([], "bpanic"), "BoomRT": ([], "bpanic"), "Hold": (["s"], "bnone"), "Gate": (["s"], "bnone"), "After": (["s"], "bnone")}
 HOST_METHODS = {"Mark": (["i64"], "bnone"), "Id64": (["i64"], "(becho 0)"), "IdU8": (["u8"], "(becho 0)"), "IdF64": (["f64"], "(becho 0)"), "Boom": ([], "bpanic"),
                 "Echo": (["i64"], "(becho 0)"),
                 # Slot returns a pointer into the host (to h.I64): an opaque value of kind ptr in the model
                 "Slot": ([], '(bconst (vother "ptr"))'),
                 # ShrinkSL truncates h.SL in the real host (no such behaviour in the Coq model): called only by driver-stated scenarios
                 "ShrinkSL": ([], "bnone"),
+                "BumpM": ([], "bnone"), "BumpI": ([], "bnone"),
                 # PushSL appends to h.SL in the real host; the Coq model has no growing behaviour: it is listed so that hosts look
                 # alike, and it is called only by scenarios whose expectation is stated in the driver (C09 termination scenarios)
                 "PushSL": (["i32"], "bnone")}
@@ -844,11 +845,13 @@ RCODES = {1: "the reader model (Lang/Reader.v: lexer + grammar + listener checks
 def stated_scenarios(run, pid, scens, disagreement, base_id=90000):
     """Scenarios whose expectation is stated by the driver (host behaviour the Coq host model cannot express: methods that grow or
     shrink a collection, a host that injects objects while the rule runs).  scens: [(name, body, inject, expect)] with
-    expect = {"class": ..., "<fn>": number of recorded calls or None, "seq": [[fn, first-arg-as-text], ...] (optional, exact)}.
+    expect = {"class": ..., "<fn>": number of recorded calls or None, "seq": [[fn, first-arg-as-text], ...] (optional, exact)};
+    an optional fifth component lists rules printed BEFORE the rule (name, desc, salience, body): all rules of the text are executed.
     Returns the number of scenarios that did not behave as stated."""
     tcs = []
-    for i, (name, body, inj, exp) in enumerate(scens):
-        c = make_case(base_id + i, body, inj)
+    for i, sc in enumerate(scens):
+        name, body, inj, exp = sc[:4]
+        c = make_case(base_id + i, body, inj, prelude=(sc[4] if len(sc) > 4 else None))
         c["fault"], c["expect"] = name, exp
         tcs.append(c)
     tobs = run_lang(tcs, timeout=40)
@@ -859,15 +862,17 @@ def stated_scenarios(run, pid, scens, disagreement, base_id=90000):
         for call_ in o.get("calls") or []:
             counts[call_["fn"]] = counts.get(call_["fn"], 0) + 1
         seq = [[cl["fn"]] + [str(a.get("z", a.get("s", ""))) for a in cl["args"]] for cl in (o.get("calls") or [])]
-        wrong = o["class"] != exp["class"] or o.get("crash") or any(v is not None and counts.get(fn, 0) != v for fn, v in exp.items() if fn not in ("class", "seq"))
+        wrong = o["class"] != exp["class"] or o.get("crash") or any(v is not None and counts.get(fn, 0) != v for fn, v in exp.items() if fn not in ("class", "seq", "ret"))
         if exp.get("seq") is not None and seq != exp["seq"]:
+            wrong = True
+        if exp.get("ret") is not None and str((o.get("ret") or {}).get("z")) != str(exp["ret"]):
             wrong = True
         if wrong:
             bad += 1
             run.report({"kind": "lang-case", "symptom": "stated", "fault": c["fault"]},
-                       {"text": c["text"], "inject": c["inject"], "rule": c["rule"], "observation": {k: o.get(k) for k in ("class", "errmsg", "crash")}, "calls_seen": seq[:40], "expected": exp,
+                       {"text": c["text"], "inject": c["inject"], "rule": c["rule"], "observation": {k: o.get(k) for k in ("class", "ret", "errmsg", "crash")}, "calls_seen": seq[:40], "expected": exp,
                         "disagreement": disagreement},
-                       "%s: '%s': expected %s, observed class=%s%s calls=%s — %s" % (pid, c["fault"], exp, o["class"], " CRASH/HANG" if o.get("crash") else "", seq[:12], c["text"].replace("\n", " | ")[:300]))
+                       "%s: '%s': expected %s, observed class=%s%s ret=%s calls=%s — %s" % (pid, c["fault"], exp, o["class"], " CRASH/HANG" if o.get("crash") else "", (o.get("ret") or {}).get("z"), seq[:12], c["text"].replace("\n", " | ")[:300]))
     return bad
 
 
